@@ -7,7 +7,7 @@ import tempfile
 
 from .engine import Exec, find_function
 from .lib import LIB
-from . import libnp, libstr, libio  # noqa: F401
+from . import libnp, libstr, libio, libbio  # noqa: F401
 from .spec import Contract, Loop
 from . import solve
 
